@@ -129,6 +129,62 @@ def rule_h_agree(ctx):
                     continue
                 R.inst(fn=b.path, site=c.where(), callee=lc.name, builder=str(bp), table=str(recv), verdict="VIOLATION")
                 R.viol(key + ":unproven", c.where(), "cannot relate the hash builder %s to the table %s (unproven)" % (bp, recv))
+    # H-stable: the hash builder of an existing map is only ever replaced by the builder that hashed the table's present contents
+    builder_fields = set()
+    for adt, idx in ctx.roles.holders.items():
+        a = ctx.facts.adts[adt]
+        for i, f in enumerate(a["variants"][0]["fields"]):
+            if i != idx and T[f["ty"]].get("k") == "param":
+                builder_fields.add((adt, i))
+    for b in ctx.facts.bodies.values():
+        if b.kind == "Closure":
+            pass
+        writes = []
+        for loc, st in b.all_assigns():
+            if b.is_cleanup(loc.bb) or not st["place"]["proj"]:
+                continue
+            pth = b.expand(st["place"], alias=True)
+            fs = pth.fields()
+            if fs and (fs[-1][1], fs[-1][2]) in builder_fields and 1 <= pth.root <= b.arg_count:
+                writes.append((loc, "assign", st, pth))
+        for c in ctx.calls(b):
+            if b.is_cleanup(c.loc.bb):
+                continue
+            for i, a in enumerate(c.args):
+                if a["k"] not in ("copy", "move"):
+                    continue
+                at = T[a["place"]["ty"]]
+                if at.get("k") == "ref" and at.get("mut"):
+                    pth = c.arg_path(i)
+                    fs = pth.fields() if pth is not None else []
+                    if fs and (fs[-1][1], fs[-1][2]) in builder_fields:
+                        writes.append((c.loc, "call", c, pth))
+        for loc, kind, obj, pth in writes:
+            n += 1
+            key = "%s:builder-write" % b.path
+            if kind == "call":
+                R.inst(fn=b.path, site=b.where(loc), write="&mut builder passed to %s" % obj.tname, verdict="VIOLATION")
+                R.viol(key + ":" + str(obj.tname), b.where(loc), "the map's hash builder is modified in place by %s: elements already in the table were hashed with the previous builder" % obj.tname)
+                continue
+            # assignment: the assigned value must be the local builder that hashed the contents (checked by _local_builder_paired) —
+            # i.e. some split-table call in this body took a hasher made from the same local
+            src = b.op_path(obj["rv"]["op"]) if obj["rv"]["k"] == "use" else None
+            ok = False
+            if src is not None:
+                for c in ctx.calls(b):
+                    lc = c.local_callee()
+                    if lc is None or "self_ty" not in lc.raw or T[lc.raw["self_ty"]].get("adt") != S or not b.dominates(c.loc, loc):
+                        continue
+                    for a in c.args[1:]:
+                        d = b.source_def(a)
+                        if d is not None and d[1] == "call":
+                            x = ctx.call_at(b, d[0].bb)
+                            xl = x.local_callee()
+                            if xl is not None and (xl.path in hf or xl.path in hm) and x.arg_path(0) is not None and x.arg_path(0).root == src.root:
+                                ok = True
+            R.inst(fn=b.path, site=b.where(loc), write="builder := %s" % (b.local_name(src.root) if src is not None else "?"), verdict="ok" if ok else "VIOLATION")
+            if not ok:
+                R.viol(key, b.where(loc), "the map's hash builder is replaced by a value that did not hash the table's contents")
     # handle constructions (worklist: a handle built from another handle's fields moves the obligation to that handle)
     done = set()
     while True:
